@@ -34,6 +34,7 @@ def build():
 impl ApiAuthError { pub fn insufficient_rights(_a: &Actor, _p: Permission, _r: Option<&MyHandle>) -> Self { unimplemented!() } }''')
     U.struct(AUTHZ, 'AuthInfo', derive=[])
     U.add(SPEC)
+    prelude.option_helpers(U)
     U.impl('impl Role', [
         U.fn(ROLES, 'Role', 'is_allowed', requires=[('km', 'obeys_key_model::<MyHandle>()')],
              ensures=[('is_statement', 'r == role_allows(*self, permission, opt_handle(resource))')]),
